@@ -6,11 +6,17 @@ export GOFLAGS=-mod=mod GOPROXY=off GOSUMDB=off GOTOOLCHAIN=local
 ID=$1; T=/tmp/seed/$ID; O=/tmp/seed/out/$ID; L=/tmp/seed/out/$ID/confirm.log
 cd $T || exit 2
 git checkout -q -- . ; git clean -fdq
-DEMO=$(python3 -c "import json;print(json.load(open('$O/meta.json'))['demo_cmd'])")
+DEMO=$(python3 -c "
+import json,re
+d=json.load(open('$O/meta.json'))['demo_cmd']
+d=re.sub(r'\s{2,}\(.*\)\s*$','',d)
+d=re.sub(r'\s{2,}#.*$','',d)
+print(d)")
 : > $L
 echo "== apply patch" >> $L; git apply $O/patch.diff >> $L 2>&1 || { echo "APPLY-FAILED" >> $L; echo "$ID apply-failed"; exit 1; }
 mkdir -p $O/ov; grep -v libp2pquic $T/clusterhost.go > $O/ov/clusterhost.go; grep -v libp2pquic $T/api/rest/restapi.go > $O/ov/restapi.go
 PKGS=$(git diff --name-only | xargs -n1 dirname | sort -u | sed 's|^|./|')
+printf '{"Replace":{"%s/clusterhost.go":"%s/ov/clusterhost.go","%s/api/rest/restapi.go":"%s/ov/restapi.go"}}' $T $O $T $O > $O/ov/ov.json
 echo "== demo with patch (must fail)" >> $L; (eval "$DEMO") >> $L 2>&1; R1=$?
 # remove demo files before running the existing tests
 git clean -fdq
